@@ -318,7 +318,7 @@ def run_scalar_ops(ns, case):
         shp = tuple(int(v) for v in rng.integers(1, 4, int(rng.integers(0, 3))))
         x = rng.uniform(0.5, 2.0, shp).astype(dt)
         x64 = x.astype(np.float64)
-        for s in (0.1, 3, -2.7, 1e-3, 7.123456789012345):
+        for s in (0.1, 3, -2.7, 1e-3, 7.123456789012345) + ((16777217, 123456789) if dt == np.float64 else ()):
             forms = {
                 "x+s": (lambda t: t + s, x64 + s), "s+x": (lambda t: s + t, s + x64), "x-s": (lambda t: t - s, x64 - s),
                 "s-x": (lambda t: s - t, s - x64), "x*s": (lambda t: t * s, x64 * s), "s*x": (lambda t: s * t, s * x64),
